@@ -1166,7 +1166,7 @@ def schema_view_lits(iface, I, view):
             return "TBuiltin"
         if tr[0] == "n":
             return "(TNamed %s %s)" % (cN(tr[1] + 1), cN(I(tr[2])))
-        return "(TNamed 998 %s)" % cN(I("#error:" + repr(tr)))
+        return "(TNamed 998%%N %s)" % cN(I("#error:" + repr(tr)))
 
     def abs_tref(tr):
         if tr[0] == "b" or (tr[1], tr[2]) in iface.anonymizable:
